@@ -248,6 +248,15 @@ def run_check(modname, tier, seed, procs=None):
     jobs = [(modname, i, shards[i], tier, seed) for i in order]
     procs = procs or int(os.environ.get("VERIF_PROCS", "16"))
     results = []
+    pre = getattr(mod, "explore", None)
+    pre_acc = None
+    if pre is not None:
+        # checks that need a search the shard model cannot express (BFS with global deduplication)
+        pre_acc = Acc(seed)
+        try:
+            pre(tier, seed, pre_acc, procs)
+        except BaseException as e:
+            pre_acc.harness_error(f"explore: {type(e).__name__}: {e}\n{traceback.format_exc()[-1500:]}")
     if procs <= 1 or len(jobs) <= 1:
         results = [_worker(j) for j in jobs]
     else:
@@ -257,6 +266,8 @@ def run_check(modname, tier, seed, procs=None):
                 results.append(r)
     results.sort(key=lambda r: r[0])
     acc = Acc(seed)
+    if pre_acc is not None:
+        acc.merge(pre_acc)
     for _, a in results:
         acc.merge(a)
 
@@ -370,3 +381,64 @@ def run_replay(modname, path):
         return 1
     print(f"replay {path}: not reproduced on {REPO}")
     return 0
+
+
+# ------------------------------------------------------------------------------------------
+# explicit-state breadth-first search over operation histories on live objects (DESIGN 2.2)
+#
+# A state is the shortest history reaching it; successors are produced by rebuilding fresh
+# objects and replaying history + [op] on the real code.  Level-synchronous, frontier
+# partitioned over the pool, deduplicated by canonical state key in the parent (in
+# deterministic chunk order, so the result does not depend on worker scheduling).
+
+
+def _bfs_worker(args):
+    modname, tier, seed, idx, hists = args
+    mod = importlib.import_module(modname)
+    acc = Acc(seed)
+    succ = []
+    t0 = time.time()
+    try:
+        for hist in hists:
+            for key, new_hist in mod.expand(hist, tier, acc):
+                succ.append((key, new_hist))
+    except BaseException as e:
+        acc.harness_error(f"bfs chunk {idx}: {type(e).__name__}: {e}\n{traceback.format_exc()[-1500:]}")
+    acc.counters["shard_cpu_s_x1000"] += int((time.time() - t0) * 1000)
+    return idx, acc, succ
+
+
+def bfs(modname, tier, seed, acc, procs=None, max_states=None):
+    """Close the reachable state graph.  mod.initial(tier) -> [(key, history)], mod.expand(hist, tier, acc)
+    yields (key, history+[op]) for every enabled op (running the oracles on the way)."""
+    mod = importlib.import_module(modname)
+    procs = procs or int(os.environ.get("VERIF_PROCS", "16"))
+    seen = {}
+    frontier = []
+    for key, hist in mod.initial(tier, acc):
+        if key not in seen:
+            seen[key] = len(hist)
+            frontier.append(hist)
+    depth = 0
+    ctx = multiprocessing.get_context("fork")
+    with ctx.Pool(procs) as pool:
+        while frontier:
+            depth += 1
+            per = max(1, min(200, (len(frontier) + procs * 4 - 1) // (procs * 4)))
+            jobs = [(modname, tier, seed, i, frontier[i : i + per]) for i in range(0, len(frontier), per)]
+            results = list(pool.imap_unordered(_bfs_worker, jobs, chunksize=1))
+            results.sort(key=lambda r: r[0])
+            nxt = []
+            for _, a, succ in results:
+                acc.merge(a)
+                for key, hist in succ:
+                    if key not in seen:
+                        seen[key] = len(hist)
+                        nxt.append(hist)
+            acc.maxof("bfs_depth", depth)
+            if max_states is not None and len(seen) > max_states:
+                acc.cap(f"bfs_max_states_{max_states}")
+                break
+            frontier = nxt
+    acc.counters["bfs_states"] = len(seen)
+    return seen
